@@ -86,6 +86,32 @@ def defaultOf : List TextStep → Option EncDefault
 def refIterText : List TextStep :=
   [.encodingFromCharset .iso8859_1, .freshDecoder, .forChunksYieldDecode, .finalFlush, .yieldFinalIfNonEmpty]
 
+/-! ### `Content.as_text` -/
+inductive AsTextStep
+  | raiseIfNotText                            -- `if self.content_type.type != "text": raise ValueError(…)`
+  | encodingFromCharset (dflt : EncDefault)   -- the charset lookup, as in `_iter_text`
+  | returnJoinedDecoded                       -- `return _join_b(self.iter_bytes()).decode(encoding)`
+  | unknown
+deriving DecidableEq, Repr
+
+/-- `as_text()` with `whole` the one-shot decoder of the encoding chosen (`none` = it raises): `none` = not interpretable, else the
+text or the exception -/
+def asTextI (isText : Bool) (whole : Bytes → Option Text) (chunks : List Bytes) : List AsTextStep → Bool → Option (Option Text × Option Exc)
+  | [], _ => none
+  | .raiseIfNotText :: rest, enc => if isText then asTextI isText whole chunks rest enc else some (none, some .valueError)
+  | .encodingFromCharset _ :: rest, _ => asTextI isText whole chunks rest true
+  | .returnJoinedDecoded :: _, true =>
+    some (match whole chunks.flatten with | some t => (some t, none) | none => (none, some .unicodeDecodeError))
+  | .returnJoinedDecoded :: _, false => none
+  | .unknown :: _, _ => none
+
+def refAsText : List AsTextStep := [.raiseIfNotText, .encodingFromCharset .iso8859_1, .returnJoinedDecoded]
+
+def defaultOfAsText : List AsTextStep → Option EncDefault
+  | [] => none
+  | .encodingFromCharset d :: _ => some d
+  | _ :: rest => defaultOfAsText rest
+
 /-! ### `content_from_reader` -/
 inductive BufKind | listOfReaderCall | unknown
 deriving DecidableEq, Repr
